@@ -375,7 +375,7 @@ impl Cw20Scen {
 
     fn gen_addr(&self, rng: &mut Rng) -> String {
         if rng.chance(1, 25) {
-            format!("-{INVALID_ADDR}")
+            format!("-{}", invalid_addr(rng, &self.pool))
         } else {
             format!("+{}", rng.pick(&self.pool))
         }
@@ -437,7 +437,7 @@ impl Cw20Scen {
             let maddr = match rng.below(16) {
                 0 => "empty".to_string(),
                 1 => "-%20".to_string(),
-                2 => format!("-{INVALID_ADDR}"),
+                2 => format!("-{}", invalid_addr(rng, &self.pool)),
                 3 | 4 => format!("+{}", rng.pick(&self.pool)),
                 5 => format!("+{snd}"),
                 6 => format!("-%20{}", rng.pick(&self.pool)),
@@ -524,7 +524,7 @@ impl Cw20Scen {
             } else {
                 let maddr = match rng.below(24) {
                     0 | 1 => "-".to_string(),
-                    2 => format!("-{INVALID_ADDR}"),
+                    2 => format!("-{}", invalid_addr(rng, &self.pool)),
                     3 => "-%20".to_string(),
                     _ => format!("+{}", rng.pick(&self.pool)),
                 };
@@ -713,7 +713,7 @@ impl Scenario for Cw20Scen {
             };
             let base = al.min(self.bal(&owner));
             let amt = if rng.chance(1, 3) { self.amount_near(rng, al) } else { self.amount_near(rng, base) };
-            let owner_s = if rng.chance(1, 30) { format!("-{INVALID_ADDR}") } else { format!("+{owner}") };
+            let owner_s = if rng.chance(1, 30) { format!("-{}", invalid_addr(rng, &self.pool)) } else { format!("+{owner}") };
             match rng.below(3) {
                 0 => format!("exec {spender} transfer_from owner={owner_s} to={} amt={amt}", self.gen_addr(rng)),
                 1 => format!("exec {spender} burn_from owner={owner_s} amt={amt}"),
